@@ -9,10 +9,10 @@ import (
 
 func init() {
 	register(&Property{
-		ID: "C02",
+		ID:          "C02",
 		Explanation: "Decides structural necessary conditions of replica agreement: every writer of the commit index stores a value shown (by a dominating comparison) not to be below the current one, or is the bootstrap/launch path; the processed index is written only inside the range checks; the in-memory log is mutated (merge) only through entryLog.append behind the 'first index > committed' fail-stop; the leader commits by counting only when the entry's term equals its own term and passes r.term; a follower appends only on the matchTerm edge and commits min(lastNew, leaderCommit); every function on the apply path that advances the state machine passes the gap/term assertion (setApplied) on every normal exit; the raft core is entered from the engine only with the node's raft mutex held; the apply path contains no wall-clock, random or unordered-map-iteration dependence. Does not decide agreement over schedules.",
-		NotCovered: "that these mechanisms compose to agreement (Raft's proof); identical user state needs a deterministic user state machine",
-		Run:        runC02,
+		NotCovered:  "that these mechanisms compose to agreement (Raft's proof); identical user state needs a deterministic user state machine",
+		Run:         runC02,
 	})
 }
 
@@ -283,6 +283,10 @@ func runC02(e *Engine, r *Report) {
 		r.floor("LS-raftmu", n, 15)
 	}
 
+	// ---- in-memory log never extended in place over shared memory; acknowledgements
+	ruleInMemEntriesFresh(e, r)
+	ruleReplicateAck(e, r)
+
 	// ---- determinism of the apply path
 	runDET(e, r)
 }
@@ -364,18 +368,18 @@ func runDET(e *Engine, r *Report) {
 
 // loops over maps on the apply path, each confirmed order-independent.
 var detOrderIndependent = map[string]string{
-	"internal/rsm.deepCopyMembership":                        "copies key/value pairs into fresh maps",
-	"(*internal/rsm.membership).isAddExistingMember":         "three existential tests (any address equal)",
-	"(*internal/rsm.membership).getHash":                     "keys are collected and sorted before hashing",
-	"(*internal/rsm.StateMachine).logMembership":             "debug logging only",
-	"(*internal/rsm.membership).isEmpty":                     "length test",
-	"internal/rsm.addressEqual":                              "pure comparison",
-	"(*internal/rsm.lrusession).getHash":                     "hash over OrderedDo output",
-	"(*internal/rsm.Session).save":                           "JSON marshalling sorts map keys",
-	"(*internal/rsm.Session).clearTo":                        "deletes every key below a bound; result is order independent",
-	"(*raftpb.Membership).Size":                              "sum of sizes",
-	"(*raftpb.Membership).SizeUpperLimit":                    "sum of sizes",
-	"(*raftpb.Membership).MarshalTo":                         "encoding of a value handed to storage, not part of compared state; decoded into a map again",
-	"(*raftpb.Membership).Marshal":                           "as MarshalTo",
-	"raftpb.(*Membership).MarshalTo":                         "as MarshalTo",
+	"internal/rsm.deepCopyMembership":                "copies key/value pairs into fresh maps",
+	"(*internal/rsm.membership).isAddExistingMember": "three existential tests (any address equal)",
+	"(*internal/rsm.membership).getHash":             "keys are collected and sorted before hashing",
+	"(*internal/rsm.StateMachine).logMembership":     "debug logging only",
+	"(*internal/rsm.membership).isEmpty":             "length test",
+	"internal/rsm.addressEqual":                      "pure comparison",
+	"(*internal/rsm.lrusession).getHash":             "hash over OrderedDo output",
+	"(*internal/rsm.Session).save":                   "JSON marshalling sorts map keys",
+	"(*internal/rsm.Session).clearTo":                "deletes every key below a bound; result is order independent",
+	"(*raftpb.Membership).Size":                      "sum of sizes",
+	"(*raftpb.Membership).SizeUpperLimit":            "sum of sizes",
+	"(*raftpb.Membership).MarshalTo":                 "encoding of a value handed to storage, not part of compared state; decoded into a map again",
+	"(*raftpb.Membership).Marshal":                   "as MarshalTo",
+	"raftpb.(*Membership).MarshalTo":                 "as MarshalTo",
 }
